@@ -1,26 +1,13 @@
 (* C12 - Building never alters its inputs and is independent of earlier builds. *)
 From Coq Require Import List NArith Bool String.
 From Dznpy Require Import Base.PyStr Base.Result Model.TextGen Model.Scoping Model.PortSelection Model.CppGen Model.Ast
-  Model.SupportFiles Model.Builder Proofs.BuilderFacts Properties.C13.
+  Model.SupportFiles Model.Builder Model.BuilderObj Proofs.BuilderFacts Proofs.BuilderObjFacts Properties.C13.
 Import ListNotations.
-
-(* The Builder object keeps exactly one piece of state between builds: the recipe of the last build. *)
-Definition bstate := option config.
-Definition bstep (tp : templates) (s : bstate) (i : file_contents * config) : bstate * result (list gfile) :=
-  match configure_and_build tp (fst i) (snd i) with
-  | Ok fs => (Some (snd i), Ok fs)      (* self._recipe = Recipe(cfg, ...) *)
-  | Err e => (s, Err e)
-  end.
-Fixpoint brun (tp : templates) (s : bstate) (h : list (file_contents * config)) : list (result (list gfile)) :=
-  match h with [] => [] | i :: t => let '(s', r) := bstep tp s i in r :: brun tp s' t end.
 
 (* whatever was built before, successfully or not, on the same or other models: every build of a history returns
    what the same model and configuration give as the first build of a fresh process *)
 Theorem C12_history_independent : forall tp h s, brun tp s h = map (fun i => configure_and_build tp (fst i) (snd i)) h.
-Proof.
-  intros tp h. induction h as [|i t IH]; intros s; [reflexivity|]. cbn [brun map]. unfold bstep.
-  destruct (configure_and_build tp (fst i) (snd i)); cbn; now rewrite IH.
-Qed.
+Proof. intros tp h s. exact (history_independent tp h s). Qed.
 Print Assumptions C12_history_independent.
 
 (* the support files in a build result equal those generated stand-alone with the same namespace prefix *)
